@@ -166,6 +166,18 @@ func ParseStrace(logPath string, initPaths []string) ([]fsEvent, *nativeFS, []st
 				exists[to] = true
 				delete(exists, from)
 			}
+		case "link", "linkat":
+			if len(qs) < 2 {
+				continue
+			}
+			from, to := qs[0][1], qs[1][1]
+			ev = fsEvent{Op: "link", Path: to, Err: errtxt}
+			if ok {
+				ev.Ino = nfs.id(from)
+				ev.Dir = nfs.id(dirOf(to))
+				nfs.ino[to] = ev.Ino
+				exists[to] = true
+			}
 		case "unlink", "unlinkat", "rmdir":
 			if len(qs) == 0 {
 				continue
@@ -249,7 +261,7 @@ func TraceCheck(solverBin string, logPath string, initPaths []string, base, user
 				continue
 			}
 			switch ev.Op {
-			case "open", "create", "unlink", "mkdir", "rename", "truncate":
+			case "open", "create", "unlink", "mkdir", "rename", "truncate", "link":
 				paths := []string{ev.Path}
 				if ev.Op == "rename" {
 					paths = strings.SplitN(ev.Path, " -> ", 2)
